@@ -10,7 +10,7 @@ class C03(S.SchedCheck):
     design_ref = "DESIGN.md §5 C03, §7 F46"
     quick_n = 600
     thorough_n = 20000
-    workers = 4
+    workers = 1
     technique = ("Lean 4 theorems over the shared executable scheduler model, time type abstract with a law class LawfulTyme (instances proved for Nat and Int, "
                  "none for Float); differential run of the compiled model at Float against hio.base.doing with tymes compared as IEEE-754 bit patterns; "
                  "independent oracle recomputing every doer's due sequence from its script with Python float arithmetic")
@@ -89,7 +89,7 @@ class C03(S.SchedCheck):
         if clauses != ["resume-not-in-first-cycle-at-or-after-due"]:
             return None
         cl, why = T.c03_analyse(case, obs.d)
-        hit = set(T.g04_break_reached(case, obs.d, None))
+        hit = set(T.g04_break_reached(case, obs.d, None, any_tock0_parent=True))
         if not why or not set(why) <= hit:
             return None
         if T.c03_analyse(case, obs.d, nested_asap_rule="now")[0]:
